@@ -1,3 +1,49 @@
+//! Conformance harness for specification-growth module G15 (see /verif/DESIGN.md 12.6):
+//! command substitution and arithmetic expansion inside words (spec/WordSubst.tla).
+//!
+//! spec -> impl:  `replay` takes the lines TLC printed from Gen_WordSubst (text of the
+//!                word, and per context x shell state the prescribed outcome), runs every
+//!                case in the real shell on the simulated OS and reports each disagreement;
+//! impl -> spec:  `random` records what the real shell does on seeded random words;
+//!                Trace_WordSubst.tla judges the records;
+//! `one`:         re-runs a single record and writes the trace record.
+mod common;
+mod render;
+mod rnd;
+mod run;
+
+use std::io::Write as _;
+use yvcommon::util;
+
+fn one(args: &[String]) -> i32 {
+    let mut line = String::new();
+    std::io::BufRead::read_line(&mut util::open_in(args), &mut line).unwrap();
+    let rec: serde_json::Value = serde_json::from_str(&line).expect("json");
+    let mut out = util::open_out(args);
+    let rc = run::one(&rec, &mut *out);
+    out.flush().unwrap();
+    rc
+}
+
 fn main() {
-    println!("stub");
+    yvcommon::real::maybe_child_main();
+    if std::env::var_os("G15_LOUD").is_none() {
+        util::quiet_panics();
+    }
+    let args: Vec<String> = std::env::args().collect();
+    if args.len() < 2 {
+        eprintln!("usage: yv-g15 <replay|random|one> [--in F] [--out F] [--n N] [--threads T]");
+        std::process::exit(2);
+    }
+    let rest = &args[2..];
+    let code = match args[1].as_str() {
+        "replay" => run::replay(rest),
+        "random" => rnd::random(rest),
+        "one" => one(rest),
+        other => {
+            eprintln!("unknown subcommand {other}");
+            2
+        }
+    };
+    std::process::exit(code);
 }
